@@ -18,13 +18,14 @@ from ..ctx import stable_hash
 
 ID = "C14"
 LEVEL = "fault_enumeration"
-TIERS = {"quick": {"shards": 16, "budget_s": 35, "streams": 2, "max_blocks": 12, "schedules_per_point": 3, "line_runs": 6, "sigint": 4},
-         "thorough": {"shards": 16, "budget_s": 540, "streams": 14, "max_blocks": 40, "schedules_per_point": 12, "line_runs": 300, "sigint": 64}}
+TIERS = {"quick": {"shards": 16, "budget_s": 35, "streams": 2, "max_blocks": 12, "schedules_per_point": 3, "line_runs": 6, "sigint": 4, "systematic_pipelines": 1, "systematic_deviations": 1},
+         "thorough": {"shards": 16, "budget_s": 540, "streams": 14, "max_blocks": 40, "schedules_per_point": 12, "line_runs": 300, "sigint": 64, "systematic_pipelines": 4, "systematic_deviations": 2}}
 RULE = ("Fault enumeration of the stop point: for each generated stream of n blocks the scheduled main thread calls stop_all() "
         "after k source reads have started, for EVERY k in 0..n+2 (before the first read, between any two reads, after the "
         "last, after the stream ended), each at several scheduler steps inside that interval, and the interleaving of all "
         "remaining steps is explored by the seeded strategies of C12 (incl. timeout firings and line-level pre-emption); "
-        "pipelines with and without the StreamSaverWorker, joiner and recording observers.  Oracle: every thread DONE (no "
+        "pipelines with and without the StreamSaverWorker, joiner and recording observers; systematic core: for tiny pipelines "
+        "every stop point x EVERY schedule with <= k deviations from the default policy (k=1 quick, k=2 thorough).  Oracle: every thread DONE (no "
         "deadlock / non-termination verdict); source reads started after the stop marker was enqueued <= 1 (the read in "
         "flight); every observer's detections == split() of exactly the blocks that were read, as if the stream had ended "
         "there; saved stream is a well-formed wav holding exactly those blocks; joiner file consistent with the same "
@@ -188,6 +189,48 @@ def enumerate_stops(ctx, conf, tmpdir):
         ctx.count("streams_with_every_stop_point_covered")
 
 
+def systematic(ctx, conf, tmpdir):
+    """every stop point x every schedule with <= k deviations, for tiny pipelines."""
+    from ..sched import systematic as SY
+
+    rng = ctx.rng("systematic")
+    shapes = [(["rec"], False), (["rec"], True), (["rec", "joiner"], False), (["rec", "rec"], True)]
+    for n in range(conf["systematic_pipelines"]):
+        if ctx.tier == "quick" and ctx.shard % 2:
+            return  # quick tier: 8 tiny pipelines in all
+        observers, saver = shapes[(ctx.shard // (2 if ctx.tier == "quick" else 1) + n) % len(shapes)]
+        nblocks = 3 if ctx.tier == "quick" else rng.choice((3, 4))
+        base = P.small_pipeline_case(rng, nblocks, observers, saver)
+        built = AC.build_audio(base)
+        if built is None:
+            continue
+        data, _ = built
+        all_ok = True
+        for k in range(0, nblocks + 3):
+            case = dict(base, stop={"after_reads": k, "extra_steps": 0})
+
+            def run_fn(strat):
+                P.clean_dir(tmpdir)
+                return P.run_pipeline(case, data, tmpdir, strategy=strat)
+
+            for devs, strat, res in SY.enumerate_schedules(run_fn, conf["systematic_deviations"], ctx.out_of_time):
+                s = res.sched
+                at = res.holder.get("reads_started_at_stop", -1)
+                ctx.case(stable_hash(["sys", case["v"], observers, saver, k, s.decisions]), 0 <= at <= nblocks)
+                ctx.count("systematic_schedules")
+                ctx.count("steps", s.steps)
+                ctx.count("timeouts_fired", s.timeouts_fired)
+                ctx.seen("stop_points(reads_started_at_stop)", at)
+                if not check_run(ctx, dict(case, deviations={str(a): b for a, b in devs.items()}), data, res, tmpdir):
+                    all_ok = False
+                    break
+            if not all_ok or not SY.enumerate_schedules.last_complete:
+                all_ok = False
+                break
+        if all_ok:
+            ctx.count("systematic_pipelines_fully_enumerated")
+
+
 # ---- command-line level: SIGINT on a real child process ------------------------------------------
 def sigint_child(ctx, rng, tmpdir, idx):
     rate = rng.choice((8000, 16000))
@@ -316,6 +359,7 @@ def run_shard(ctx):
         n_children = [i for i in range(conf["sigint"]) if ctx.mine(i)]
         for i in n_children:
             check_sigint(ctx, sigint_child(ctx, rng, tmpdir, i), i)
+        systematic(ctx, conf, tmpdir)
         enumerate_stops(ctx, conf, tmpdir)
         rng = ctx.rng("lines")
         for i in range(conf["line_runs"]):
@@ -351,7 +395,7 @@ def inconclusive(merged, tier):
     c = merged["counters"]
     need = ["scheduled_runs", "stop_points_enumerated", "streams_with_every_stop_point_covered", "stops_before_stream_end",
             "stops_with_a_read_in_flight", "observer_logs_checked", "saved_streams_checked", "joiner_files_checked",
-            "line_mode_runs", "sigint_children_checked", "timeouts_fired"]
+            "line_mode_runs", "sigint_children_checked", "timeouts_fired", "systematic_schedules", "systematic_pipelines_fully_enumerated"]
     out = [f"monitor never observed {k}" for k in need if c.get(k, 0) == 0]
     if c.get("inconclusive_runs", 0) > max(3, c.get("scheduled_runs", 0) // 50):
         out.append(f"{c['inconclusive_runs']} runs hit a step/wall cap or the sigint driver's watchdog")
